@@ -97,8 +97,13 @@ def scenario(draw):
     else:
         drivers.append([{"at_ms": at, "op": trig if trig != "shutdown" else ("shutdown" if runner == "service" else "stop")}])
     drivers[0].sort(key=lambda s: s["at_ms"])
-    return {"runner": runner, "accept_delay": draw(accept_delay), "switchinterval": draw(switchinterval), "bound_s": BOUND, "linger_ms": 300,
-            "payloads": payloads, "drivers": drivers, "trigger": trigger}
+    sc = {"runner": runner, "accept_delay": draw(accept_delay), "switchinterval": draw(switchinterval), "bound_s": BOUND, "linger_ms": 300,
+          "payloads": payloads, "drivers": drivers, "trigger": trigger}
+    if draw(st.integers(0, 4)) == 0 and len(payloads) <= 8:
+        sc["trace_delay"] = {"files": ["runners/asyncio_runner.py", "runners/trio_runner.py", "runners/thread_runner.py", "runners/meta_runner.py",
+                                       "runners/base_runner.py", "runners/service.py"],
+                             "delays_ms": [draw(st.sampled_from([0, 0, 1])), draw(st.sampled_from([0, 1, 2])), draw(st.sampled_from([0, 1, 3]))]}
+    return sc
 
 
 def judge(sc, obs) -> Result:
@@ -155,7 +160,8 @@ def run_case(sc) -> Result:
     sync = max([p["cleanup"].get("sync_ms", 0) for p in victims] or [0])
     res.cls("trigger:" + trig["kind"] + (":" + trig.get("flavour", "") if trig.get("flavour") else ""), "asyncio:%d" % na, "trio:%d" % nt,
             "shield:%s" % ("0" if not shield else "<50" if shield < 50 else ">=50"), "sync:%s" % ("0" if not sync else "<50" if sync < 50 else ">=50"),
-            "blocked-threads:%d" % sum(1 for p in sc["payloads"] if p["role"] == "blocked"), "runner:" + sc["runner"])
+            "blocked-threads:%d" % sum(1 for p in sc["payloads"] if p["role"] == "blocked"), "runner:" + sc["runner"],
+            "schedule-perturbed:" + str(bool(sc.get("trace_delay"))))
     for p in victims:
         res.cls("state:" + p["state"])
     other = any(p["flavour"] != trig.get("flavour") for p in victims)
